@@ -493,7 +493,7 @@ impl Property for C13 {
     }
     fn runs(&self, tier: Tier) -> u64 {
         match tier {
-            Tier::Quick => 60_000,
+            Tier::Quick => 100_000,
             Tier::Thorough => 1_000_000,
         }
     }
